@@ -3,6 +3,7 @@ package main
 import (
 	"fmt"
 	"strings"
+	"sync"
 	"time"
 
 	"github.com/spikeekips/mitum/base"
@@ -318,7 +319,59 @@ func runC06(c *Ctx) error {
 // 4. the ballotbox's own position while it counts: the last point is a draw, and one suffrage-confirm ballot of an
 // earlier round or stage of the height arrives carrying the old INIT majority voteproof (with expels).  The box hands
 // that voteproof out; its position must not go back to that old, not suffrage-confirm, INIT position.
+// several callers set the last point of one ballotbox at the same time (the counting goroutine, the states seeding the
+// box from a voteproof they received): whatever the interleaving, the box ends at the highest point
+func c06concurrentLastPoint(c *Ctx) error {
+	iterations := 2500
+	if c.Thorough() {
+		iterations = 30000
+	}
+	mk := func(h int64, r uint64, stage base.Stage) isaac.LastPoint {
+		p, _ := isaac.NewLastPoint(base.NewStagePoint(base.RawPoint(h, r), stage), true, false)
+		return p
+	}
+	for n := 0; n < iterations; n++ {
+		box := isaacstates.NewBallotbox(base.RandomAddress(""), func() base.Threshold { return base.Threshold(100) },
+			func(base.Height) (base.Suffrage, bool, error) { return nil, false, nil })
+		h0 := int64(33 + c.Intn(5))
+		_ = box.SetLastPoint(mk(h0, 0, base.StageINIT))
+		var points []isaac.LastPoint
+		for j := 0; j < 3+c.Intn(5); j++ {
+			points = append(points, mk(h0+int64(c.Intn(4)), uint64(c.Intn(3)), []base.Stage{base.StageINIT, base.StageACCEPT}[c.Intn(2)]))
+		}
+		highest := mk(h0+4, 0, base.StageINIT)
+		points = append(points, highest)
+		begin := make(chan struct{})
+		var wg sync.WaitGroup
+		for _, j := range c.Perm(len(points)) {
+			wg.Add(1)
+			go func(p isaac.LastPoint) {
+				defer wg.Done()
+				<-begin
+				_ = box.SetLastPoint(p)
+			}(points[j])
+		}
+		close(begin)
+		wg.Wait()
+		c.Eval(1)
+		if last := box.LastPoint(); !last.StagePoint.Equal(highest.StagePoint) {
+			var ps []string
+			for _, p := range points {
+				ps = append(ps, p.StagePoint.String())
+			}
+			c.Violation("C06:ballotbox-position-went-back", fmt.Sprintf("%d concurrent SetLastPoint calls %v: the box ends at %v, the highest point given is %v", len(points), ps, last.StagePoint, highest.StagePoint),
+				map[string]interface{}{"points": ps, "iteration": n})
+			break
+		}
+	}
+	c.Count("directed", "concurrent-set-last-point")
+	return nil
+}
+
 func c06ballotbox(c *Ctx) error {
+	if err := c06concurrentLastPoint(c); err != nil {
+		return err
+	}
 	n := 30
 	if c.Thorough() {
 		n = 600
